@@ -87,6 +87,12 @@ def pendingRegistered (op : String) (registered : Bool) : List Viol :=
   else [s!"C06 {op}-answered-Pending-without-registering-a-waker"] ++
        (if op == "cn_pollcap" then ["C16 poll_capacity-answered-Pending-without-registering-a-waker"] else [])
 
+/-- C06: `poll_pushed` parks its caller until a PUSH_PROMISE arrives or the stream can carry none any more; a
+    stream whose receive side has ended (END_STREAM, reset, connection error) with that waker still in its slot
+    has swallowed the wake-up (finding F32) -/
+def parkedPush (streamState : String) : List Viol :=
+  [s!"C06 push-promise-waiter-still-parked-after-the-stream-ended({streamState})"]
+
 /-- C07: once the connection object is gone, no operation on any of its handles may stay pending -/
 def afterEnd (op result streamState : String) : List Viol :=
   if result == "pending" then [s!"C07 {op}-still-pending-after-the-connection-is-gone(stream:{streamState})"] else []
